@@ -23,7 +23,8 @@ CONC_UNITS = ['M', 'mM', 'm', 'mol/L', 'mmol/mL', 'g/L', 'g/mL', 'g/g', 'g/kg', 
 RATIOS = [F(1, 10), F(1, 2), F(1), F(2)]
 Q_UNITS = ['L', 'mL', 'uL', 'g', 'mg', 'mol', 'mmol']
 SIZES = {'small': F(1, 10), 'all': F(1), 'more': F(3, 2),       # fraction of the source the request needs
-         'minute': F(1, 100000)}                                  # sub-microlitre preparations
+         'minute': F(1, 100000),                                  # sub-microlitre preparations
+         'trace': F(1234567, 10 ** 13)}                           # about a ten-millionth of the stock (nanolitres), not a round fraction
 
 
 THOROUGH = {'on': False}
@@ -156,11 +157,20 @@ def run_spec(sp):
         (rsrc, new), rsolv = res, None
     rel = 1e-6 + 10.0 ** -pp.config.internal_precision / float(c)
     got_t = ref.measure(pp, new.contents, qb)
-    if abs(float(got_t) - float(Qp)) > 1e-6 * float(Qp):
+    # every amount is stored with the documented resolution (10^-precision of its storage unit; 1e-10 U of an enzyme at 1 U/mL
+    # is 1e-7 uL): at nanolitre scale that is visible in the total and in the concentration
+    res = 10.0 ** -pp.config.internal_precision
+
+    def quantum(unit):
+        return float(sum(ref.base_amount(pp, ref.rsub(x), res) * ref.per_base(ref.rsub(x), unit) for x in new.contents))
+    if abs(float(got_t) - float(Qp)) > 1e-6 * float(Qp) + 2 * quantum(qb):
         return [V(f"create_solution_from | constraint-missed | total,{feat}",
                   f"{call}: total {float(got_t / pf)!r} {sp['qu']}, requested {float(Qp / pf)!r}", case, float(Qp / pf),
                   float(got_t / pf))], (expect, 'returned')
     got_c = ref.conc(pp, new.contents, solute, num, den)
+    d_new = float(ref.measure(pp, new.contents, den))
+    n_new = float(ref.measure(pp, {solute: new.contents.get(solute, 0.0)}, num))
+    rel += 2 * (quantum(den) / d_new if d_new else 0.0) + 2 * (quantum(num) / n_new if n_new else 0.0)
     if got_c is None or abs(float(got_c) - float(c)) > rel * float(c):
         return [V(f"create_solution_from | constraint-missed | concentration,{feat}",
                   f"{call}: concentration {float(got_c / mult) if got_c is not None else None!r} {sp['cu']}, requested "
